@@ -1,7 +1,7 @@
 (** Item-level rules of the checker: functions, core externs and modules, instances, components;
     the memo invariant; the main characterisation [is_subtype_spec]. *)
 From Coq Require Import ZArith ZifyBool ZifyN Lia.
-From WacV Require Import Str Types Checker SubSpec CheckerEq SubSpecProofs CheckerValue.
+From WacV Require Import Str Types C07Flags Checker SubSpec CheckerEq SubSpecProofs CheckerValue.
 Set Warnings "-unused-intro-pattern".
 
 (** * Functions *)
@@ -87,7 +87,24 @@ Proof.
   destruct am as [x|], bm as [y|]; rewrite ?N.leb_le; intuition discriminate.
 Qed.
 
-Lemma core_extern_spec k a b : decides (core_extern k a b) (ESub a b).
+(** The page-size relation the checker implements: equality of the [Option]s, or (once the source normalises the
+    default) equality of the page sizes they denote.  [SubX] is the relation the checker decides. *)
+Definition PGx : option N -> option N -> Prop := if psl_default_normalised then PageCM else eq.
+Notation SubX := (Sub eq PGx).
+Lemma PGx_refl a : PGx a a.
+Proof. unfold PGx, PageCM. destruct psl_default_normalised; reflexivity. Qed.
+Lemma PGx_trans a b c : PGx a b -> PGx b c -> PGx a c.
+Proof. unfold PGx, PageCM. destruct psl_default_normalised; congruence. Qed.
+Lemma PGx_PageCM a b : PGx a b -> PageCM a b.
+Proof. unfold PGx, PageCM. destruct psl_default_normalised; congruence. Qed.
+Lemma page_size_eqb_iff a b : page_size_eqb a b = true <-> PGx a b.
+Proof.
+  unfold page_size_eqb, PGx, PageCM. destruct psl_default_normalised.
+  - apply N.eqb_eq.
+  - apply optNeqb_eq.
+Qed.
+
+Lemma core_extern_spec k a b : decides (core_extern k a b) (ESub PGx a b).
 Proof.
   destruct a as [f|elem initial maximum t64 shared|m64 shared initial maximum psl|vt mut shared|f],
            b as [f0|elem0 initial0 maximum0 t640 shared0|m640 shared0 initial0 maximum0 psl0|vt0 mut0 shared0|f0];
@@ -117,9 +134,10 @@ Proof.
     destruct (limits_match initial maximum initial0 maximum0) eqn:E2; cbn [negb].
     2:{ apply decides_err. inversion 1; subst. match goal with H : limits_ok _ _ _ _ |- _ => apply limits_match_iff in H end. congruence. }
     apply limits_match_iff in E2.
-    destruct (opt_N_eqb psl psl0) eqn:E5; cbn [negb].
-    2:{ apply decides_err. inversion 1; subst. assert (opt_N_eqb psl0 psl0 = true) by now apply optNeqb_eq. congruence. }
-    apply optNeqb_eq in E5 as ->. apply decides_ok. now constructor.
+    destruct (page_size_eqb psl psl0) eqn:E5; cbn [negb].
+    2:{ apply decides_err. inversion 1; subst.
+        match goal with H : PGx _ _ |- _ => apply page_size_eqb_iff in H end. congruence. }
+    apply page_size_eqb_iff in E5. apply decides_ok. now constructor.
   - destruct (Bool.eqb mut mut0) eqn:E3; cbn [negb].
     2:{ apply decides_err. inversion 1; subst. rewrite Bool.eqb_reflx in E3. discriminate. }
     apply (proj1 (booleqb_eq _ _)) in E3 as ->.
@@ -136,7 +154,7 @@ Qed.
 
 Lemma module_imports_spec prev k b : forall a,
   decides (module_imports prev k a b)
-          (forall key x, In (key, x) a -> exists y, assoc2 key b = Some y /\ ESub y x).
+          (forall key x, In (key, x) a -> exists y, assoc2 key b = Some y /\ ESub PGx y x).
 Proof.
   induction a as [|[key ae] a IH]; cbn [module_imports].
   - apply decides_ok. intros ? ? [].
@@ -150,7 +168,7 @@ Proof.
 Qed.
 Lemma module_exports_spec k a : forall b,
   decides (module_exports k a b)
-          (forall key y, In (key, y) b -> exists x, assoc key a = Some x /\ ESub x y).
+          (forall key y, In (key, y) b -> exists x, assoc key a = Some x /\ ESub PGx x y).
 Proof.
   induction b as [|[key be] b IH]; cbn [module_exports].
   - apply decides_ok. intros ? ? [].
@@ -365,7 +383,7 @@ Section Items.
   (** ** The memo invariant *)
   Definition cache_ok (c : list (kind * kind)) : Prop :=
     forall x y, In (x, y) c -> forall xt yt g tx ty, E xt -> E yt ->
-      unfold g xt x = Some tx -> unfold g yt y = Some ty -> Sub eq tx ty.
+      unfold g xt x = Some tx -> unfold g yt y = Some ty -> SubX tx ty.
 
   Definition post (P : Prop) (s : st) (rs : SR) : Prop :=
     decides (fst rs) P /\ cache_ok (cache (snd rs)) /\ (fst rs = Ok tt -> ks (snd rs) = ks s) /\
@@ -439,11 +457,11 @@ Section Items.
   Qed.
 
   Lemma gen_loop_spec call miss (U V : kind -> option tree) :
-    (forall s ak bk ta tb, cache_ok (cache s) -> U ak = Some ta -> V bk = Some tb -> post (Sub eq ta tb) s (call s ak bk)) ->
+    (forall s ak bk ta tb, cache_ok (cache s) -> U ak = Some ta -> V bk = Some tb -> post (SubX ta tb) s (call s ak bk)) ->
     (forall s bk tb, V bk = Some tb -> exists e, miss s bk = Err e) ->
     forall a a', map_snd U a = Some a' ->
     forall b b' s, map_snd V b = Some b' -> cache_ok (cache s) ->
-    post (cov_spec eq a' b') s (gen_loop call miss s a b).
+    post (cov_spec eq PGx a' b') s (gen_loop call miss s a b).
   Proof.
     intros Hcall Hmiss a a' Ha. induction b as [|[k bk] b IH]; intros b' s Hb Hc.
     - unfold map_snd in Hb. cbn in Hb. injection Hb as <-. cbn [gen_loop]. apply post_lift; [assumption|].
@@ -453,7 +471,7 @@ Section Items.
       destruct (assoc k a) as [ak|] eqn:Ek.
       + destruct (map_snd_some_in U a a' k ak Ha (assoc_in _ _ _ Ek)) as [ta Hta]. rewrite Hta in Hassoc.
         pose proof (Hcall s ak bk ta tb Hc Hta Hb1) as Hp. destruct (call s ak bk) as [r1 s1] eqn:Ecall.
-        eapply post_iff; [|apply (post_sbind (Sub eq ta tb) (cov_spec eq a' r) s r1 s1 _ Hp)].
+        eapply post_iff; [|apply (post_sbind (SubX ta tb) (cov_spec eq PGx a' r) s r1 s1 _ Hp)].
         * unfold cov_spec. split.
           -- intros [H1 H2] k' tb' [Eq|Hin]; [injection Eq as <- <-; eauto | eauto].
           -- intro H. split.
@@ -467,11 +485,10 @@ Section Items.
 
   (** ** Instances, components, modules under a correct recursive call *)
   Section Level.
-    Variable g F : nat.
-    Hypothesis HgF : (g <= F)%nat.
+    Variable g : nat.
     Variable rec : st -> types -> kind -> types -> kind -> SR.
     Hypothesis Hrec : forall s xt x yt y tx ty, E xt -> E yt -> cache_ok (cache s) ->
-      unfold g xt x = Some tx -> unfold g yt y = Some ty -> post (Sub eq tx ty) s (rec s xt x yt y).
+      unfold g xt x = Some tx -> unfold g yt y = Some ty -> post (SubX tx ty) s (rec s xt x yt y).
     Variable vf : nat.
     Hypothesis Hvf : (S g <= vf)%nat.
 
@@ -481,17 +498,17 @@ Section Items.
       intro Hu. destruct (desc_kind_total g t vf bk tb ltac:(lia) Hu) as [D ->]. cbn [bind]. eauto.
     Qed.
 
-    Lemma cov_refl xt i e : E xt -> unfold_inst (unfold g xt) xt i = Some e -> cov_spec eq e e.
+    Lemma cov_refl xt i e : E xt -> unfold_inst (unfold g xt) xt i = Some e -> cov_spec eq PGx e e.
     Proof.
       intros He Hu.
       assert (Hk : unfold (S g) xt (KInstance i) = Some (XInst e)) by (rewrite unfold_eq; cbn [unfold_body]; now rewrite Hu).
       pose proof (unfold_wf_tree xt (E_nodup _ He) _ _ _ Hk) as Hw.
-      pose proof (Sub_refl (tdepth (XInst e)) (XInst e) (le_n _) Hw) as Hs. now inversion Hs.
+      pose proof (Sub_refl PGx PGx_refl (tdepth (XInst e)) (XInst e) (le_n _) Hw) as Hs. now inversion Hs.
     Qed.
 
     Lemma interface_spec s xt a yt b ea eb : E xt -> E yt -> cache_ok (cache s) ->
       unfold_inst (unfold g xt) xt a = Some ea -> unfold_inst (unfold g yt) yt b = Some eb ->
-      post (cov_spec eq ea eb) s (interface rec vf s xt a yt b).
+      post (cov_spec eq PGx ea eb) s (interface rec vf s xt a yt b).
     Proof.
       intros Hx Hy Hc Ha Hb. unfold interface. pose proof Ha as Ha'. pose proof Hb as Hb'. unfold unfold_inst in Ha', Hb'.
       destruct (get_if xt a) as [ia|] eqn:Ea; [|discriminate]. destruct (get_if yt b) as [ib|] eqn:Eb; [|discriminate].
@@ -508,7 +525,7 @@ Section Items.
 
     Lemma world_spec s xt a yt b ia ea ib eb : E xt -> E yt -> cache_ok (cache s) ->
       unfold_comp (unfold g xt) xt a = Some (ia, ea) -> unfold_comp (unfold g yt) yt b = Some (ib, eb) ->
-      post (cov_spec eq ib ia /\ cov_spec eq ea eb) s (world_ rec vf s xt a yt b).
+      post (cov_spec eq PGx ib ia /\ cov_spec eq PGx ea eb) s (world_ rec vf s xt a yt b).
     Proof.
       intros Hx Hy Hc Ha Hb. unfold world_. unfold unfold_comp in Ha, Hb.
       destruct (get_world xt a) as [wa|] eqn:Ea; [|discriminate]. destruct (get_world yt b) as [wb|] eqn:Eb; [|discriminate].
@@ -545,14 +562,14 @@ Section Items.
     Qed.
 
     Lemma module_spec s xt a yt b ma mb : E xt -> E yt -> cache_ok (cache s) ->
-      get_mod xt a = Some ma -> get_mod yt b = Some mb -> post (MSub ma mb) s (module_ s xt a yt b).
+      get_mod xt a = Some ma -> get_mod yt b = Some mb -> post (MSub PGx ma mb) s (module_ s xt a yt b).
     Proof.
       intros Hx Hy Hc Ea Eb. unfold module_. rewrite Ea, Eb.
       destruct (id_eqb a b) eqn:Eid.
       - apply ideqb_eq in Eid. subst b. apply post_lift; [assumption|]. apply decides_ok.
         assert (Et : xt = yt). { apply E_same; auto. apply lookup_tag in Ea, Eb. congruence. }
         subst yt. assert (ma = mb) by congruence. subst mb.
-        destruct (E_nodup _ Hx) as [_ [_ Nm]]. destruct (Nm _ _ (lookup_nth _ _ _ _ Ea)). now apply MSub_refl.
+        destruct (E_nodup _ Hx) as [_ [_ Nm]]. destruct (Nm _ _ (lookup_nth _ _ _ _ Ea)). now apply (MSub_refl PGx PGx_refl).
       - pose proof (module_imports_spec (vkind (ks s)) (vkind (ks (set_ks s (invert (ks s))))) (m_imports mb) (m_imports ma)) as H1.
         pose proof (module_exports_spec (vkind (ks s)) (m_exports ma) (m_exports mb)) as H2.
         destruct (module_imports _ _ (m_imports ma) (m_imports mb)) as [u|e| |] eqn:E1.
@@ -583,24 +600,24 @@ Section Items.
       invariant, any variance stack) returns Ok or Err, Ok exactly on the pairs of [Sub eq]; the invariant is
       kept, the memo only grows, and the variance stack is restored on Ok. *)
   Lemma is_subtype_spec g : forall F s xt x yt y tx ty, (g <= F)%nat -> E xt -> E yt -> cache_ok (cache s) ->
-    unfold g xt x = Some tx -> unfold g yt y = Some ty -> post (Sub eq tx ty) s (is_subtype F s xt x yt y).
+    unfold g xt x = Some tx -> unfold g yt y = Some ty -> post (SubX tx ty) s (is_subtype F s xt x yt y).
   Proof.
     induction g as [|g IH]; intros F s xt x yt y tx ty HF Hx Hy Hc Hux Huy; [discriminate|].
     destruct F as [|F]; [lia|]. cbn [is_subtype].
     destruct (cache_mem (x, y) (cache s)) eqn:Emem.
     { apply cache_mem_in in Emem. apply post_lift; [assumption|]. apply decides_ok. apply (Hc x y Emem xt yt (S g) tx ty Hx Hy Hux Huy). }
     assert (Hrec : forall s xt x yt y tx ty, E xt -> E yt -> cache_ok (cache s) ->
-              unfold g xt x = Some tx -> unfold g yt y = Some ty -> post (Sub eq tx ty) s (is_subtype F s xt x yt y)).
+              unfold g xt x = Some tx -> unfold g yt y = Some ty -> post (SubX tx ty) s (is_subtype F s xt x yt y)).
     { intros. apply IH; auto. lia. }
-    assert (Hcore : post (Sub eq tx ty) s (is_subtype_ (is_subtype F) (S F) s xt x yt y)).
+    assert (Hcore : post (SubX tx ty) s (is_subtype_ (is_subtype F) (S F) s xt x yt y)).
     { pose proof Hux as Hux'. pose proof Huy as Huy'. rewrite unfold_eq in Hux', Huy'. unfold unfold_body in Hux', Huy'.
-      assert (Hmis : forall r, r = mismatch (vkind (ks s)) (desc_kind (S F)) x xt y yt -> ~ Sub eq tx ty ->
-                               post (Sub eq tx ty) s (lift r s)).
+      assert (Hmis : forall r, r = mismatch (vkind (ks s)) (desc_kind (S F)) x xt y yt -> ~ SubX tx ty ->
+                               post (SubX tx ty) s (lift r s)).
       { intros r -> Hn. apply post_lift; [assumption|].
         destruct (desc_kind_total (S g) xt (S F) x tx HF Hux) as [D1 E1]. destruct (desc_kind_total (S g) yt (S F) y ty HF Huy) as [D2 E2].
         unfold mismatch. destruct (vkind (ks s)); cbn [ef2]; rewrite E1, E2; cbn [bind]; now apply decides_err. }
-      assert (Hmist : forall a b r, x = KType a -> y = KType b -> r = mismatch (vkind (ks s)) (desc_ty (S F)) a xt b yt -> ~ Sub eq tx ty ->
-                               post (Sub eq tx ty) s (lift r s)).
+      assert (Hmist : forall a b r, x = KType a -> y = KType b -> r = mismatch (vkind (ks s)) (desc_ty (S F)) a xt b yt -> ~ SubX tx ty ->
+                               post (SubX tx ty) s (lift r s)).
       { intros a b r -> -> -> Hn. apply post_lift; [assumption|].
         destruct (desc_kind_total (S g) xt (S F) _ tx HF Hux) as [D1 E1]. destruct (desc_kind_total (S g) yt (S F) _ ty HF Huy) as [D2 E2].
         cbn [desc_kind] in E1, E2.
